@@ -96,6 +96,54 @@ def run_assign(case):
     return {"kind": "assign", "n": 0, "arcs": [], "matrix": M, "events": [ev], "input": case}
 
 
+def gen_ns_tight(rng):
+    n = rng.randint(3, 7)
+    arcs, seen = [], set()
+    for _ in range(rng.randint(n, 2 * n + 2)):
+        u, v = rng.sample(range(n), 2)
+        if (u, v) in seen:
+            continue
+        seen.add((u, v))
+        arcs.append([u, v, rng.randint(0, 3), rng.randint(0, 9)])
+    b = [0] * n
+    for _ in range(rng.randint(1, 3)):
+        a, c = rng.sample(range(n), 2)
+        k = rng.randint(1, 3)
+        b[a] += k
+        b[c] -= k
+    return {"n": n, "arcs": arcs, "supplies": b, "s": 0, "t": n - 1, "labels": "int"}
+
+
+def run_ns_bulk(case):
+    """Coverage-directed generation (DESIGN §2.2): run many small tight instances through network_simplex with the pivot
+    hook on and keep the executions that take rarely exercised spec actions (an arc entering from its upper bound with a
+    non-degenerate step; long pivot sequences), plus a small sample of the rest.  Only the kept ones are sent to TLC."""
+    from solvor import _verif
+    from solvor.network_simplex import network_simplex
+    rng = random.Random(case["seed"])
+    kept, cov = [], {"instances": 0, "enter_from_upper_nondegenerate": 0, "pivots>=6": 0, "sampled": 0}
+    for i in range(case["count"]):
+        c = gen_ns_tight(rng)
+        _verif.start()
+        try:
+            r = network_simplex(c["n"], [tuple(a) for a in c["arcs"]], list(c["supplies"]))
+            ev = _cost_event("network_simplex", r, {k: k for k in range(c["n"])})
+        except Exception as ex:  # noqa: BLE001
+            ev = {"e": "raise", "fn": "network_simplex", "what": type(ex).__name__}
+        events, _ = _verif.stop()
+        piv = [e for e in events if e.get("e") == "ns_pivot"]
+        cov["instances"] += 1
+        rare = any(e["from_upper"] and e["delta"] > 0 for e in piv)
+        longrun = len(piv) >= 6
+        cov["enter_from_upper_nondegenerate"] += rare
+        cov["pivots>=6"] += longrun
+        if rare or (longrun and rng.random() < 0.3) or rng.random() < 0.01:
+            cov["sampled"] += 1
+            kept.append({"kind": "mincost", "n": c["n"], "arcs": c["arcs"], "s": 0, "t": c["n"] - 1, "demand": 0, "supplies": c["supplies"],
+                         "events": [ev], "input": c, "coverage": "EnterFromUpper" if rare else ("LongPivotSequence" if longrun else "sample")})
+    return {"kept": kept, "cov": cov}
+
+
 # ------------------------------------------------------------------ generators
 def gen_maxflow(rng, nmax=10):
     n = rng.randint(2, nmax)
